@@ -147,6 +147,144 @@ fn thread_sched_ns() -> Option<(u64, u64)> {
     Some((run, wait))
 }
 
+// ---- native re-entry matrix -----------------------------------------------------------------
+
+/// Every way the core library (and the VM's own native helpers) calls back into bytecode and then
+/// handles the result ITSELF — call_function / run_unary_op / run_binary_op / value_to_string /
+/// make_iterator / display inside a native function — crossed with the overload or callback that is
+/// reached and never returns. Each case is `(name, setup lines, usage lines)`; it runs bare and with
+/// a try/catch around the usage: the run has to END with the timeout error (never `ok`, never
+/// another error, no handler may run). A native that maps, drops or defaults the error of the nested
+/// execution (e.g. a "nicer" message for a failed assertion) turns the timeout into something else.
+fn native_matrix() -> Vec<(String, String, String)> {
+    let spin = "    loop\n      zz = 1\n";
+    // map with one spinning meta key (plus benign extras)
+    let meta = |key: &str, args: &str, tail: &str, extras: &str| format!("o =\n{extras}  {key}: {args}\n{spin}    {tail}\n");
+    // usage with a multi-line callback that spins
+    let cb = |head: &str, tail: &str, close: &str| format!("z = {head}\n  loop\n    zz = 1\n  {tail}\n{close}\n");
+    let mut v: Vec<(String, String, String)> = vec![];
+    let mut add = |n: &str, setup: String, usage: &str| v.push((n.to_string(), setup, usage.to_string()));
+    // ---- @display reached through natives
+    let disp = || meta("@display", "||", "'d'", "  @==: |rhs| false\n  @!=: |rhs| false\n");
+    add("display/interpolation", disp(), "z = \"<{o}>\"\n");
+    add("display/interpolation-of-list", disp(), "z = \"<{[o]}>\"\n");
+    add("display/debug-of-tuple", disp(), "z = \"<{(o, 1):?}>\"\n");
+    add("display/interpolation-of-map", disp(), "w = {a: o}\nz = \"<{w}>\"\n");
+    add("display/print", disp(), "print o\n");
+    add("display/print-list", disp(), "print [o]\n");
+    add("display/print-several-values", disp(), "print 1, o\n");
+    add("display/assert_eq-message", disp(), "assert_eq o, 1\n");
+    add("display/assert_ne-message", disp(), "assert_ne o, 1\n");
+    add("display/assert_eq-message-in-list", disp(), "assert_eq [o], 1\n");
+    add("display/iterator.to_string", disp(), "z = (o, o).to_string()\n");
+    add("display/stdout-write", disp(), "io.stdout.write o\n");
+    add("display/stdout-write_line", disp(), "io.stdout.write_line o\n");
+    add("display/stderr-write", disp(), "io.stderr.write_line [o]\n");
+    add("display/thrown-value", disp(), "try\n  throw o\ncatch err\n  z = \"<{err}>\"\n");
+    // ---- @== / @!=
+    let eq = || meta("@==", "|rhs|", "true", "");
+    add("equal/list.contains", eq(), "z = [1].contains o\n");
+    add("equal/tuple.contains", eq(), "z = (1, 2).contains o\n");
+    add("equal/list-comparison", eq(), "z = [o] == [1]\n");
+    add("equal/tuple-comparison", eq(), "z = (o, 1) == (1, 1)\n");
+    add("equal/map-comparison", eq(), "z = {a: o} == {a: 1}\n");
+    add("equal/assert_eq", eq(), "assert_eq o, 1\n");
+    add("equal/derived-not-equal", eq(), "z = o != 1\n");
+    add("not-equal/assert_ne", meta("@!=", "|rhs|", "true", ""), "assert_ne o, 1\n");
+    // ---- @<
+    let lt = || meta("@<", "|rhs|", "true", "");
+    add("less/list.sort", lt(), "z = [o, o, o].sort()\n");
+    add("less/iterator.min", lt(), "z = (o, o).min()\n");
+    add("less/iterator.max", lt(), "z = (o, o).max()\n");
+    add("less/iterator.min_max", lt(), "z = (o, o).min_max()\n");
+    add("less/tuple.sort_copy", lt(), "z = (o, o).sort_copy()\n");
+    add("less/sort-keys", lt(), "z = [1, 2].sort |x| o\n");
+    add("less/derived-greater-or-equal", lt(), "z = o >= 1\n");
+    // ---- @size / @index / @next / @next_back / @iterator / @call
+    add("size/koto.size", meta("@size", "||", "1", ""), "z = koto.size o\n");
+    add("size/size", meta("@size", "||", "1", ""), "z = size o\n");
+    add("size/match-pattern", meta("@size", "||", "2", "  @index: |i| 1\n"), "z = match o\n  (a, b) then 1\n  else 2\n");
+    add("index/match-pattern", meta("@index", "|i|", "1", "  @size: || 2\n"), "z = match o\n  (a, b) then 1\n  else 2\n");
+    add("next/for", meta("@next", "||", "null", ""), "for v in o\n  ()\n");
+    add("next/iterator.count", meta("@next", "||", "null", ""), "z = iterator.count o\n");
+    add("next/iterator.to_list", meta("@next", "||", "null", ""), "z = iterator.to_list o\n");
+    add("next/unpack", meta("@next", "||", "null", ""), "a, b = o\n");
+    add("next/call-args-unpack", meta("@next", "||", "null", ""), "f = |a...| a\nz = f o...\n");
+    add("next/flatten", meta("@next", "||", "null", ""), "z = (o,).flatten().to_list()\n");
+    add("next_back/reversed", meta("@next_back", "||", "null", "  @next: || null\n"), "z = iterator.reversed(o).to_list()\n");
+    add("iterator/iterator.count", meta("@iterator", "||", "(1, 2)", ""), "z = iterator.count o\n");
+    add("iterator/flatten", meta("@iterator", "||", "(1, 2)", ""), "z = (o, o).flatten().to_list()\n");
+    add("iterator/call-args-unpack", meta("@iterator", "||", "(1, 2)", ""), "f = |a...| a\nz = f o...\n");
+    add("call/as-adaptor-callback", meta("@call", "|x|", "x", ""), "z = (1,).each(o).to_list()\n");
+    add("call/as-sort-key", meta("@call", "|x|", "x", ""), "z = [2, 1].sort o\n");
+    add("callback/generate-n", "gf = ||\n  loop\n    zz = 1\n  1\n".to_string(), "z = iterator.generate(gf, 2).to_list()\n");
+    // ---- plain callbacks handed to natives
+    for (n, head, tail, close) in [
+        ("callback/each.to_list", "(1, 2).each(|x|", "x", ").to_list()"),
+        ("callback/each.to_tuple", "(1, 2).each(|x|", "x", ").to_tuple()"),
+        ("callback/each.to_map", "(1, 2).each(|x|", "x", ").to_map()"),
+        ("callback/each.to_string", "('a', 'b').each(|x|", "x", ").to_string()"),
+        ("callback/each.count", "(1, 2).each(|x|", "x", ").count()"),
+        ("callback/each.consume", "(1, 2).each(|x|", "x", ").consume()"),
+        ("callback/each.last", "(1, 2).each(|x|", "x", ").last()"),
+        ("callback/each.sum", "(1, 2).each(|x|", "x", ").sum()"),
+        ("callback/each.product", "(1, 2).each(|x|", "x", ").product()"),
+        ("callback/each.next", "(1, 2).each(|x|", "x", ").next()"),
+        ("callback/each.peekable.peek", "(1, 2).each(|x|", "x", ").peekable().peek()"),
+        ("callback/each.skip.next", "(1, 2).each(|x|", "x", ").skip(1).next()"),
+        ("callback/each.step", "(1, 2).each(|x|", "x", ").step(2).to_list()"),
+        ("callback/each.enumerate", "(1, 2).each(|x|", "x", ").enumerate().to_list()"),
+        ("callback/each.windows", "(1, 2, 3).each(|x|", "x", ").windows(2).to_list()"),
+        ("callback/each.chunks", "(1, 2, 3).each(|x|", "x", ").chunks(2).to_list()"),
+        ("callback/each.cycle", "(1, 2).each(|x|", "x", ").cycle().take(3).to_list()"),
+        ("callback/each.reversed", "(1, 2).each(|x|", "x", ").reversed().to_list()"),
+        ("callback/each.intersperse", "(1, 2).each(|x|", "x", ").intersperse(0).to_list()"),
+        ("callback/each.zip", "(1, 2).each(|x|", "x", ").zip((3, 4)).to_list()"),
+        ("callback/each.min", "(1, 2).each(|x|", "x", ").min()"),
+        ("callback/each.position", "(1, 2).each(|x|", "x", ").position(|y| y == 2)"),
+        ("callback/chain.each", "(1, 2).chain((3,).each(|x|", "x", ")).to_list()"),
+        ("callback/list.extend-each", "[0].extend((1, 2).each(|x|", "x", "))"),
+        ("callback/map.extend-each", "{}.extend(((1, 2),).each(|x|", "x", "))"),
+        ("callback/keep", "(1, 2).keep(|x|", "true", ").to_list()"),
+        ("callback/fold", "(1, 2).fold(0, |acc, x|", "acc", ")"),
+        ("callback/any", "(1, 2).any(|x|", "false", ")"),
+        ("callback/all", "(1, 2).all(|x|", "true", ")"),
+        ("callback/find", "(1, 2).find(|x|", "false", ")"),
+        ("callback/position", "(1, 2).position(|x|", "false", ")"),
+        ("callback/min-key", "(1, 2).min(|x|", "x", ")"),
+        ("callback/max-key", "(1, 2).max(|x|", "x", ")"),
+        ("callback/min_max-key", "(1, 2).min_max(|x|", "x", ")"),
+        ("callback/take-while", "(1, 2).take(|x|", "true", ").to_list()"),
+        ("callback/consume-fn", "(1, 2).consume(|x|", "x", ")"),
+        ("callback/generate", "iterator.generate(||", "1", ").take(2).to_list()"),
+        ("callback/intersperse-fn", "(1, 2).intersperse(||", "0", ").to_list()"),
+        ("callback/list.sort-key", "[2, 1].sort(|x|", "x", ")"),
+        ("callback/list.retain", "[2, 1].retain(|x|", "true", ")"),
+        ("callback/list.transform", "[2, 1].transform(|x|", "x", ")"),
+        ("callback/list.resize_with", "[1].resize_with(3, ||", "0", ")"),
+        ("callback/map.update", "{a: 1}.update('a', |x|", "x", ")"),
+        ("callback/map.sort-key", "{a: 1, b: 2}.sort(|k, v|", "k", ")"),
+        ("callback/map.keep", "{a: 1}.keep(|e|", "true", ").to_map()"),
+        ("callback/tuple.sort_copy-key", "(2, 1).sort_copy(|x|", "x", ")"),
+        ("callback/string.split-predicate", "'a b'.split(|c|", "c == ' '", ").to_list()"),
+        ("callback/zip.each", "(1, 2).zip((3, 4)).each(|a|", "a", ").to_list()"),
+        ("callback/chunks.each", "(1, 2, 3).chunks(2).each(|x|", "x", ").to_list()"),
+        ("callback/for-over-each", "0\nfor v in (1, 2).each(|x|", "x", ")\n  ()"),
+        ("callback/unpack-each", "0\na, b = (1, 2).each(|x|", "x", ")"),
+    ] {
+        add(n, String::new(), &cb(head, tail, close));
+    }
+    v
+}
+
+/// (bare, inside try/catch) scripts of one matrix case
+fn matrix_scripts(setup: &str, usage: &str) -> (String, String) {
+    let bare = format!("export c08_marker = 41\n{setup}{usage}'after'\n");
+    let indented: String = usage.lines().map(|l| format!("  {l}\n")).collect();
+    let tried = format!("export c08_marker = 41\n{setup}try\n{indented}catch e\n  emit 'h', 0, e\n'after'\n");
+    (bare, tried)
+}
+
 // ---- configuration routes ------------------------------------------------------------------
 
 /// Every `pub fn …(self …)` helper of `impl KotoSettings` (crates/koto/src/koto.rs). The harness
@@ -486,7 +624,22 @@ enum Spin {
     Recursion,
     /// … with an argument and work pending in every frame
     RecursionPending,
+    // self-recursion through ONE overloadable entry whose frame is pushed directly by the operator's
+    // instruction (same interpreter entry): no loop, no backwards jump, no Call instruction — every
+    // instruction has to be a polling point. The depth is capped (SELF_CAP) so that a poller that
+    // misses these frames lets the script run to its end (≈ 0.3 s, `ok`) instead of exhausting the
+    // memory; they run at limits ≤ 20 ms, a small fraction of the uncapped running time.
+    SelfNegate,
+    SelfLess,
+    SelfEqual,
+    SelfIndex,
+    SelfCall,
+    SelfIterator,
 }
+
+const SELF_SPINS: &[Spin] = &[Spin::SelfNegate, Spin::SelfLess, Spin::SelfEqual, Spin::SelfIndex, Spin::SelfCall, Spin::SelfIterator];
+/// depth cap of the self-recursion spins (uncapped running time ≈ 0.3 s in the harness build)
+const SELF_CAP: u32 = 400_000;
 
 /// spins whose call stack grows without bound: the time to unwind and to render the trace grows
 /// with the depth reached (F-C08-5); kept to limits ≤ 200 ms (≈ 1 GB of frames per second)
@@ -505,6 +658,12 @@ const SPINS: &[Spin] = &[
     Spin::NestedLoops,
     Spin::Recursion,
     Spin::RecursionPending,
+    Spin::SelfNegate,
+    Spin::SelfLess,
+    Spin::SelfEqual,
+    Spin::SelfIndex,
+    Spin::SelfCall,
+    Spin::SelfIterator,
 ];
 
 /// handler id used for the `try` that a spin itself opens around an ordinary `throw`
@@ -620,6 +779,33 @@ fn render_spin(spin: Spin, bound: Option<u32>, d: usize, out: &mut Vec<String>) 
                 out.push(format!("{p}rec = |n| 1 + rec(n + 1)"));
                 out.push(format!("{p}i = rec 0"));
             }
+        }
+        Spin::SelfNegate | Spin::SelfLess | Spin::SelfEqual | Spin::SelfIndex | Spin::SelfCall | Spin::SelfIterator => {
+            let cap = if t { b } else { SELF_CAP };
+            let (key, args, again, done, start): (&str, &str, &str, &str, &str) = match spin {
+                Spin::SelfNegate => ("@negate", "||", "-self", "0", "zs = -sx"),
+                Spin::SelfLess => ("@<", "|rhs|", "self < rhs", "true", "zs = sx < 1"),
+                Spin::SelfEqual => ("@==", "|rhs|", "self == rhs", "true", "zs = sx == 1"),
+                Spin::SelfIndex => ("@index", "|ix|", "self[ix]", "0", "zs = sx[0]"),
+                Spin::SelfCall => ("@call", "||", "self()", "0", "zs = sx()"),
+                _ => ("@iterator", "||", "", "", ""),
+            };
+            out.push(format!("{p}sx ="));
+            out.push(format!("{q}n: 0"));
+            out.push(format!("{q}{key}: {args}"));
+            out.push(format!("{r}self.n += 1"));
+            if spin == Spin::SelfIterator {
+                out.push(format!("{r}if self.n < {cap}"));
+                out.push(format!("{s}for sq in self"));
+                out.push(format!("{s}  ()"));
+                out.push(format!("{r}(1, 2)"));
+                out.push(format!("{p}for sq in sx"));
+                out.push(format!("{q}()"));
+            } else {
+                out.push(format!("{r}if self.n < {cap} then {again} else {done}"));
+                out.push(format!("{p}{start}"));
+            }
+            out.push(format!("{p}i = sx.n"));
         }
         Spin::NestedLoops => {
             out.push(format!("{p}i = 0"));
@@ -1341,7 +1527,13 @@ fn gen_cases(rng: &mut Rng, thorough: bool) -> Vec<Case> {
             "sweep"
         };
         // unbounded recursion allocates ≈ 1 GB of frames per second: short limits only
-        let limit = if DEEP_SPINS.contains(&spin) { limit.min(200) } else { limit };
+        let limit = if SELF_SPINS.contains(&spin) {
+            limit.min(20)
+        } else if DEEP_SPINS.contains(&spin) {
+            limit.min(200)
+        } else {
+            limit
+        };
         cases.push(Case { shape, limit_ms: limit, family });
     };
     let wrappers: Vec<Layer> = SAME_ENTRY.iter().chain(NESTED_ENTRY.iter()).copied().collect();
@@ -1690,6 +1882,8 @@ fn main() {
             let id = match expect.as_str() {
                 "late" => "F-C08-2",
                 "late-slow-instruction" => "F-C08-6",
+                "abort" => "F-C08-7",
+                "late-phase-change" => "F-C08-8",
                 "late-recursion" => "F-C08-5",
                 _ => "",
             };
@@ -1732,7 +1926,11 @@ fn main() {
                 if fails {
                     cx.viol_d("C08:corpus", json!({"script": script, "script_hex": kvh::hex(script.as_bytes()), "limit_ms": limit, "result": res_json(r), "what": what}));
                 }
-            } else if cx.is_open(&id) && !matches!(r, RunRes::Done(_)) && !(kind == "hang" && matches!(r, RunRes::Killed(_))) {
+            } else if cx.is_open(&id)
+                && !matches!(r, RunRes::Done(_))
+                && !(kind == "hang" && matches!(r, RunRes::Killed(_)))
+                && !(kind == "abort" && matches!(r, RunRes::Died(_)))
+            {
                 // a hang is not the signature of a listed finding (swallowed / late but delivered),
                 // unless the entry's witness kind says so
                 cx.viol_d("C08:no-timeout", json!({"script": script, "script_hex": kvh::hex(script.as_bytes()), "limit_ms": limit, "result": res_json(r), "what": what}));
@@ -1842,6 +2040,56 @@ fn main() {
                     }
                 }
                 _ => cx.viol_d("C08:terminating-differs", json!({"what": "a terminating script hung or killed the worker", "detail": detail})),
+            }
+        }
+    }
+
+    // ---- native re-entry matrix: every native that calls back into bytecode × what it reaches --------
+    {
+        let matrix = native_matrix();
+        let mlimit: u64 = 20;
+        let mut jobs: Vec<(String, String, &str)> = vec![];
+        for (name, setup, usage) in &matrix {
+            let (bare, tried) = matrix_scripts(setup, usage);
+            jobs.push((name.clone(), bare, "bare"));
+            jobs.push((name.clone(), tried, "try"));
+        }
+        let results = pool_run(n_workers, &jobs, |w, (_, script, _)| {
+            let kill = mlimit + slack_ms(mlimit) * 3 + 4000;
+            let r = run_in(w, mlimit, script, kill);
+            match &r {
+                RunRes::Done(o) if o.outcome == "timeout" && too_slow(o, mlimit, 1) => {
+                    std::thread::sleep(Duration::from_millis(500));
+                    run_in(w, mlimit, script, kill)
+                }
+                _ => r,
+            }
+        });
+        for ((name, script, variant), r) in jobs.iter().zip(results.iter()) {
+            cx.rep.case(&format!("matrix {} {} {}", name, variant, script), true);
+            cx.rep.bump("family=native-matrix");
+            cx.rep.bump(&format!("matrix={}", name.split('/').next().unwrap_or("")));
+            let detail = |what: String| json!({"matrix_case": name, "variant": variant, "script": script, "script_hex": kvh::hex(script.as_bytes()), "limit_ms": mlimit, "result": res_json(r), "what": what});
+            match r {
+                RunRes::Done(o) => {
+                    let host_err = o.outcome.strip_prefix("err:").and_then(kvh::unhex).map(|b| String::from_utf8_lossy(&b).to_string());
+                    if o.outcome != "timeout" || !o.trace.is_empty() {
+                        if o.elapsed_us < mlimit * 1000 {
+                            // ended before the limit: the case did not reach its non-terminating callee
+                            // (the table is wrong for this tree, or the native's signature changed)
+                            cx.viol_k("K:C08:native-matrix", detail(format!("the case ended before the limit without reaching its non-terminating callee ({}): the matrix entry no longer fits the core library", host_err.unwrap_or(o.outcome.clone()))));
+                        } else {
+                            cx.viol_d("C08:timeout-swallowed", detail(format!("a native function that calls back into bytecode turned the timeout of the nested execution into something else: outcome {}, handler trace {:?}", host_err.unwrap_or(o.outcome.clone()), o.trace)));
+                        }
+                    } else if too_slow(o, mlimit, 1) {
+                        cx.viol_d("C08:late-timeout", detail("timeout later than limit + slack (twice)".into()));
+                    } else if o.probe != PROBE_EXPECT || o.exports != "i41;none" {
+                        cx.viol_d("C08:runtime-unusable", detail("probe script / exports wrong after the run".into()));
+                    }
+                }
+                RunRes::Killed(ms) => cx.viol_d("C08:no-timeout", detail(format!("still running after {} ms: killed", ms))),
+                RunRes::Died(st) => cx.viol_d("C08:worker-died", detail(format!("worker died: {}", st))),
+                RunRes::Skipped => {}
             }
         }
     }
